@@ -191,7 +191,22 @@ namespace plan
     }
   };
 
+  inline std::vector<Op> generate_profile(uint64_t seed, const std::string &prop);
+  // C18 (no abnormal termination on valid programs) has no workload of its own: two times in three it borrows the profile of one
+  // of the other properties, so that every structured workload built for them (diamonds, class chains, twin fields, open timelines,
+  // blockades, pins, planted blocks...) is also run under C18's crash / hang / teardown oracles and its sanitizer configuration
   inline std::vector<Op> generate(uint64_t seed, const std::string &prop)
+  {
+    if (prop == "C18")
+    {
+      Rng pr = Rng(seed).derive("profile");
+      static const char *borrow[] = {"C01", "C02", "C03", "C04", "C05", "C06", "C17", "C17", "C19"};
+      if (pr.chance(2, 3))
+        return generate_profile(seed, borrow[pr.below(9)]);
+    }
+    return generate_profile(seed, prop);
+  }
+  inline std::vector<Op> generate_profile(uint64_t seed, const std::string &prop)
   {
     Rng sw = Rng(seed).derive("swarm"), g = Rng(seed).derive("gen");
     std::vector<Op> ops;
